@@ -10,6 +10,9 @@ old = {c["property_id"]: c for c in M["checks"]}
 ALL = [json.loads(l)["id"] for l in open(os.path.join(ROOT, "properties.jsonl"))]
 
 CONN_TEXT = {
+    "C05": "concurrent-stream limits: Lean theorems on the counters' guards (and counting invariants of the connection model where present in H2V/Props/C05.lean); correspondence of the real connection with the model incl. all counters; monitors: concurrency rule on the real wire trace (Spec/Wire.lean C05) and counter-vs-store invariants on the real state after every operation (Spec/StateInv.lean)",
+    "C16": "send-capacity API: Lean theorems on capacity assignment arithmetic (and send-ledger invariants of the connection model where present); correspondence incl. capacity answers and wake-ups; assigned-capacity ledger checked on the real state after every operation (Spec/StateInv.lean C16)",
+    "C18": "bounded state: Lean theorems on the quota guards (reset memory, library resets, tiny-DATA budget) (and bounds of the connection model where present); correspondence; quota invariants on the real state after every operation (Spec/StateInv.lean C18)",
     "C02": "send-side flow control: Lean theorems on FlowControl arithmetic/ledger (and, where present in H2V/Props/C02.lean, send-ledger invariants of the connection model); the real connection vs the Lean connection model op by op; RFC 9113 credit monitor (Spec/Wire.lean rule C02) on the real wire trace",
     "C03": "receive-side flow control: Lean theorems on window credit arithmetic (and receive-ledger invariants of the connection model where present); correspondence of the real connection with the model incl. every window field; advertised-window monitor (rule C03) on the real trace",
     "C04": "stream life cycle on the wire: Lean theorem that h2's stream state machine refines RFC 9113 Figure 2 (Spec/Lifecycle.lean) + connection-level theorems where present; correspondence; legalTx monitor (rule C04) on every frame the real endpoint writes",
